@@ -206,29 +206,52 @@ static void quitScenario() {
 
 enum ConnOp { kSend, kForceClose, kForceCloseWithDelay, kStartRead, kStopRead, kShutdown, kConnOps };
 
+// Observations that are not data races but are printed with the DONE line (the Python side decides).
+// F26 regression detector: forceClose()/forceCloseWithDelay()/shutdown() used to test state_ and store
+// kDisconnecting in two steps; a handleClose() of the loop thread in between (peer hang-up, uncorrelated with the
+// foreign calls - that is why the seeded mix finds it and a forceClose()-only hammer does not: there the threads
+// sit in the loop's mutex when handleClose() runs) revived the connection and it went down twice.  Measured on
+// the unrepaired tree: non-zero counters in 8 of 12 runs of `TcpConnection::mix 100 <seed>`.
+static std::atomic<long> g_doubleClose(0);   // close callback invoked a second time for one connection
+static std::atomic<long> g_doubleDown(0);    // connection callback reported DOWN a second time
+
 struct ConnWorld {
   EventLoop* loop;
   Gate up, down;
   std::atomic<long> bytesIn, writeCompletes, highWater;
-  ConnWorld() : loop(NULL), bytesIn(0), writeCompletes(0), highWater(0) {}
-  void onConnection(const TcpConnectionPtr& c) { if (c->connected()) up.open(); else down.open(); }
+  std::atomic<int> closes, downs;
+  ConnWorld() : loop(NULL), bytesIn(0), writeCompletes(0), highWater(0), closes(0), downs(0) {}
+  void onConnection(const TcpConnectionPtr& c) {
+    if (c->connected()) { up.open(); return; }
+    if (downs.fetch_add(1) > 0) ++g_doubleDown;
+    down.open();
+  }
   void onMessage(const TcpConnectionPtr& c, Buffer* b, Timestamp) {
     bytesIn += static_cast<long>(b->readableBytes());
     c->send(b);                                        // loop-thread send: echo
   }
   void onWriteComplete(const TcpConnectionPtr&) { ++writeCompletes; }
   void onHighWater(const TcpConnectionPtr&, size_t) { ++highWater; }
-  void onClose(const TcpConnectionPtr& c) { loop->queueInLoop(std::bind(&TcpConnection::connectDestroyed, c)); }
+  void onClose(const TcpConnectionPtr& c) {
+    // what TcpServer::removeConnectionInLoop does; a second close callback for the same connection is recorded
+    // and not acted upon (TcpServer would fail `assert(n == 1)` / destroy twice)
+    if (closes.fetch_add(1) > 0) { ++g_doubleClose; return; }
+    loop->queueInLoop(std::bind(&TcpConnection::connectDestroyed, c));
+  }
 };
 
+static char g_payload[4096];
+
 static void connCall(const TcpConnectionPtr& c, ConnOp op, Rng& r, Buffer* scratch) {
-  static const char kData[] = "0123456789abcdef0123456789abcdef0123456789abcdef0123456789abcdef";
+  // sizes up to 3000 bytes against a 4 KiB socket send buffer and a peer that pauses reading: the connection's
+  // output buffer, handleWrite(), the write-complete and high-water-mark paths are in use on the loop thread
+  const int len = 1 + static_cast<int>(r.below(r.below(4) ? 60 : 3000));
   switch (op) {
     case kSend:
       switch (r.below(3)) {
-        case 0: c->send(StringPiece(kData, 1 + static_cast<int>(r.below(60)))); break;
-        case 1: c->send(static_cast<const void*>(kData), 1 + static_cast<int>(r.below(60))); break;
-        default: scratch->append(kData, 1 + r.below(60)); c->send(scratch); break;
+        case 0: c->send(StringPiece(g_payload, len)); break;
+        case 1: c->send(static_cast<const void*>(g_payload), len); break;
+        default: scratch->append(g_payload, static_cast<size_t>(len)); c->send(scratch); break;
       }
       (void)c->connected();
       break;
@@ -250,6 +273,8 @@ static void connScenario(ConnOp op, int calls) {
     int sv[2];
     // both ends non-blocking: muduo needs it for sv[0]; the peer uses MSG_DONTWAIT anyway
     if (socketpair(AF_UNIX, SOCK_STREAM | SOCK_NONBLOCK | SOCK_CLOEXEC, 0, sv) != 0) { perror("socketpair"); _exit(2); }
+    int sndbuf = 4096;
+    ::setsockopt(sv[0], SOL_SOCKET, SO_SNDBUF, &sndbuf, sizeof sndbuf);
     ConnWorld w;
     w.loop = loop;
     InetAddress a(1), b(2);
@@ -273,8 +298,10 @@ static void connScenario(ConnOp op, int calls) {
       int rounds = 30 + static_cast<int>(r.below(60));
       for (int i = 0; i < rounds; ++i) {
         (void)::send(sv[1], buf, 1 + r.below(200), MSG_DONTWAIT | MSG_NOSIGNAL);
-        ssize_t n = ::recv(sv[1], buf, sizeof buf, MSG_DONTWAIT);
-        if (n == 0) break;
+        if (i % 8 >= 3) {            // pauses reading now and then: back-pressure on the connection
+          ssize_t n = ::recv(sv[1], buf, sizeof buf, MSG_DONTWAIT);
+          if (n == 0) break;
+        }
         spin(r.below(20000));
       }
       if (peerClosesEarly) { ::close(sv[1]); peerOpen = false; }
@@ -647,6 +674,7 @@ static std::vector<Scenario>& scenarios() {
 
 int main(int argc, char** argv) {
   setvbuf(stdout, NULL, _IOLBF, 0);
+  memset(g_payload, 'd', sizeof g_payload);
   std::vector<Scenario>& v = scenarios();
   if (argc >= 2 && strcmp(argv[1], "list") == 0) {
     for (size_t i = 0; i < v.size(); ++i) printf("%s\n", v[i].name);
@@ -662,7 +690,8 @@ int main(int argc, char** argv) {
   for (size_t i = 0; i < v.size(); ++i) {
     if (strcmp(v[i].name, argv[1]) == 0) {
       v[i].run();
-      printf("DONE %s iterations=%d seed=%llu ran=%ld\n", argv[1], g_iters, static_cast<unsigned long long>(g_seed), g_ran.load());
+      printf("DONE %s iterations=%d seed=%llu ran=%ld doubleClose=%ld doubleDown=%ld\n", argv[1], g_iters,
+             static_cast<unsigned long long>(g_seed), g_ran.load(), g_doubleClose.load(), g_doubleDown.load());
       fflush(stdout);
       _exit(0);
     }
